@@ -1205,6 +1205,24 @@ def _geometries(rng, n, edges, kind):
     return P
 
 
+def _special_rot(rng):
+    """rotations and translations with special structure: identity, half and quarter turns about coordinate axes, pure translation, pure rotation"""
+    k = int(rng.integers(0, 6))
+    R = np.eye(3)
+    if k in (1, 2):
+        ax = int(rng.integers(0, 3))
+        ang = np.pi if k == 1 else np.pi / 2 * int(rng.choice([1, 3]))
+        c, s_ = np.round(np.cos(ang)), np.round(np.sin(ang))
+        i, j = [(1, 2), (2, 0), (0, 1)][ax]
+        R[i, i], R[i, j], R[j, i], R[j, j] = c, -s_, s_, c
+    elif k in (3, 4):
+        R = _rand_rot(rng)
+    t = np.zeros(3) if k in (0, 3) and rng.integers(0, 2) == 0 else rng.uniform(-30, 30, size=3)
+    if k == 5:
+        t = rng.integers(-5, 6, 3).astype(float)      # identity rotation, lattice-like translation
+    return R, t
+
+
 def _rand_rot(rng):
     q = rng.normal(size=4)
     q /= np.linalg.norm(q)
@@ -1393,6 +1411,8 @@ def _scenario(rng, kind, small_ok=False):
     if len({tuple(np.round(p, 9)) for p in P}) < n:
         return None
     Q = rng.uniform(-2.5, 2.5, size=(m, 3))
+    if rng.integers(0, 5) == 0:
+        Q[0] = P[int(rng.integers(0, n))]          # a target atom exactly on a reference atom (anchor or terminal)
     s = float(rng.choice([1.0, 0.5, 2.0, rng.uniform(0.01, 2.0)]))
     return n, edges, m, P, Q, s
 
@@ -1414,7 +1434,7 @@ def task_numeric_generic(prop, tier, seed):
             n, edges, m, P, Q, s = sc
             try:
                 if prop == "C02":
-                    R, t = _rand_rot(rng), rng.uniform(-30, 30, size=3)
+                    R, t = (_rand_rot(rng), rng.uniform(-30, 30, size=3)) if t_ % 4 else _special_rot(rng)
                     cex = {"fn": "rigid", "R": R.tolist(), "t": t.tolist()}
                     bad = numeric_rigid(n, edges, m, P.tolist(), Q.tolist(), s, R, t, seed=t_)
                 elif prop == "C03":
